@@ -1,6 +1,7 @@
 package main
 
 import (
+	"github.com/getkin/kin-openapi/openapi3"
 	"encoding/json"
 	"fmt"
 	"math/rand"
@@ -701,13 +702,13 @@ func runJSON(c runCfg, prop string) error {
 				st, extra = "builderr", " detail="+dialect.Hx(p.BuildErr)
 			}
 			impl[i] = "SKIP gen=" + st + extra
-		case "E", "U", "EO", "UO":
+		case "E", "U", "EO", "UO", "EK":
 			p := byName[f[1]]
 			if p == nil || !p.OK() {
 				impl[i] = "SKIP pkg-unavailable"
 				continue
 			}
-			verb := map[string]string{"E": "RT", "U": "DEC", "EO": "RT", "UO": "DEC"}[f[0]]
+			verb := map[string]string{"E": "RT", "U": "DEC", "EO": "RT", "UO": "DEC", "EK": "RT"}[f[0]]
 			send = append(send, f[1]+" "+verb+" "+f[2]+" "+f[3])
 			idx = append(idx, i)
 		default:
@@ -720,6 +721,36 @@ func runJSON(c runCfg, prop string) error {
 	}
 	for k, i := range idx {
 		impl[i] = res[k]
+	}
+	// EK lines: the implementation's JSON judged by kin-openapi's validator against the component schema
+	loaded := map[string]*openapi3.Swagger{}
+	for i, l := range lines {
+		f := strings.Split(l, " ")
+		if f[0] != "EK" || len(f) < 4 || !strings.HasPrefix(impl[i], "impl=") {
+			continue
+		}
+		p := byName[f[1]]
+		if p == nil {
+			continue
+		}
+		sw, ok := loaded[f[1]]
+		if !ok {
+			sw, _ = openapi3.NewSwaggerLoader().LoadSwaggerFromData(p.Doc)
+			loaded[f[1]] = sw
+		}
+		hexjson := strings.TrimPrefix(strings.Fields(impl[i])[0], "impl=")
+		verdict := "unavailable"
+		if sw != nil && sw.Components.Schemas[f[2]] != nil {
+			var v interface{}
+			if err := json.Unmarshal([]byte(dialect.UnHx(hexjson)), &v); err != nil {
+				verdict = "invalidjson"
+			} else if err := sw.Components.Schemas[f[2]].Value.VisitJSON(v); err != nil {
+				verdict = "no:" + dialect.Hx(err.Error())
+			} else {
+				verdict = "ok"
+			}
+		}
+		impl[i] += " kin=" + verdict
 	}
 	return writeFam(c, &famResult{Cases: lines, Impl: impl, Pkgs: pkgs}, meta)
 }
@@ -918,6 +949,33 @@ func jsonCases(c runCfg, prop string) ([]*scratch.Pkg, []string, map[string]inte
 					}
 				}
 				oneOfLines = append(oneOfLines, "EO "+pkg+" "+on+" {"+strings.Join(fs, ",")+"}")
+				nE++
+			}
+		}
+		// an array whose items are a oneOf defined in place (NOT modelled: the encoding is judged by kin-openapi's schema
+		// validator against the component schema, the round trip against the sent value)
+		{
+			itemOne := &dialect.Schema{OneOf: []*dialect.Schema{{Type: "string"}, {Type: "integer", Format: "int64"}, {Ref: "V0a"}}}
+			comps = append(comps, dialect.Prop{Name: "TOneArr", Schema: &dialect.Schema{Type: "object", Required: []string{"id"}, Props: []dialect.Prop{
+				{Name: "entries", Schema: &dialect.Schema{Type: "array", Items: itemOne}},
+				{Name: "id", Schema: &dialect.Schema{Type: "string"}}}}})
+			for k := 0; k < nval/2; k++ {
+				var els []string
+				for e := 0; e < rng.Intn(4); e++ {
+					switch rng.Intn(3) {
+					case 0:
+						els = append(els, "{J(S("+dialect.Hx(jStrings[rng.Intn(len(jStrings))])+")),N,N}")
+					case 1:
+						els = append(els, "{N,J(I("+strconv.FormatInt(jInts[rng.Intn(len(jInts))], 10)+")),N}")
+					default:
+						els = append(els, "{N,N,J({S("+dialect.Hx("k")+"),S("+dialect.Hx("V0a")+"),N})}")
+					}
+				}
+				entries := "N"
+				if k%4 != 3 {
+					entries = "J([" + strings.Join(els, ",") + "])"
+				}
+				oneOfLines = append(oneOfLines, "EK "+pkg+" TOneArr {"+entries+",S("+dialect.Hx("id"+strconv.Itoa(k))+")}")
 				nE++
 			}
 		}
